@@ -109,6 +109,11 @@ def run(prop, tier, seed):
         import liftmodel
         lift = liftmodel.run(tier, seed)
         liftmodel.report(prop, v, lift)
+    flat = None
+    if prop in ("C12", "C04"):
+        import flattenmodel
+        flat = flattenmodel.run(tier, seed)
+        flattenmodel.report(prop, v, flat)
     packed = None
     if prop == "C12":
         import packedmodel
@@ -125,6 +130,9 @@ def run(prop, tier, seed):
         "rule": "contracts enumerated by IdiomsGen + seeded generators; a program contributes when its analysis succeeds",
         "samples": [res["sample"]],
     }
+    if flat:
+        cov["flatten_model"] = flattenmodel.coverage(flat)
+        cov["states"] += flat["states"]
     if packed:
         cov["packed_merge_model"] = packedmodel.coverage(packed)
         cov["states"] += packed["states"]
@@ -144,6 +152,15 @@ def run(prop, tier, seed):
 def replay(prop, path, seed):
     from common import read_json as _rj
     _doc = _rj(path)
+    if _doc["replay"].get("kind") == "flatten-tree":
+        import flattenmodel
+        from common import Verdict as _V2
+        _v2 = _V2(prop, _doc.get("tier", "quick"), _doc.get("seed", seed))
+        _n2 = flattenmodel.report(prop, _v2, flattenmodel.run(_doc.get("tier", "quick"), _doc.get("seed", seed)))
+        print(json.dumps({"flatten_violations": _n2}))
+        if _n2:
+            print(f"VIOLATION property={prop} replay={path}")
+        return 1 if _n2 else 0
     if _doc["replay"].get("kind") == "packed-pair":
         import packedmodel
         from common import Verdict as _V
